@@ -705,20 +705,25 @@ Lemma sound_genesis : forall k s, rel k s -> step_sound k s OGenesis.
 Proof.
   intros k s R. pose proof R as (R1 & R2 & R3 & R4 & R5 & R6 & R7).
   unfold step_sound, model_obs, step_total. cbn [step fst snd check_step].
-  unfold genesis_roundtrip, set_snaps. cbn [s_psnap s_ysnap s_ubis s_reg s_pools nat_supply supply_of s_bank].
-  split.
-  - cbn [Z.eqb cl app]. rewrite cl_true by (unfold nat_supply, supply_of in *; lia). cbn [app].
+  set (s' := genesis_roundtrip s).
+  assert (En : nat_supply s' = nat_supply s) by reflexivity.
+  assert (Ep : s_psnap s' = snap_norm (s_psnap s)) by reflexivity.
+  assert (Ey : s_ysnap s' = snap_norm (s_ysnap s)) by reflexivity.
+  assert (Eu : s_ubis s' = s_ubis s) by reflexivity.
+  assert (Er : s_reg s' = s_reg s) by reflexivity.
+  assert (Eb : s_bank s' = s_bank s) by reflexivity.
+  rewrite En, Ep, Ey, Eu, Er. split.
+  - cbn [Z.eqb cl app]. rewrite cl_true by lia. cbn [app].
     rewrite cl_true by (rewrite !snap_norm_idem, R3, R4, !snap_eqb_refl; reflexivity). cbn [app].
     rewrite cl_true by (rewrite R6; apply list_eqb_refl, ubi_eqb_refl). cbn [app].
     apply cl_true. apply andb_true_intro. split; [apply andb_true_intro; split|].
     + apply forallb_forall. intros e _. destruct (R7 (fst e)) as (V1 & _). rewrite V1. apply otok_eqb_refl.
     + apply forallb_forall. intros e He. apply in_map_iff in He. destruct He as (x & <- & _). cbn [fst snd].
-      destruct (R7 (fst x)) as (_ & V2 & _). rewrite V2. unfold supply_of. cbn [s_bank]. lia.
+      destruct (R7 (fst x)) as (_ & V2 & _). rewrite V2. unfold supply_of. rewrite Eb. lia.
     + apply forallb_forall. intros e _. destruct (R7 (fst e)) as (V1 & _). rewrite V1.
       destruct (aget (fst e) (s_reg s)) as [t|] eqn:Et; [|reflexivity]. eapply aget_some_key. exact Et.
-  - apply rel_intro; cbn [k_now k_params k_psnap k_ysnap k_native k_ubis s_now s_params s_psnap s_ysnap s_ubis]; try congruence.
-    + unfold nat_supply, supply_of in *. cbn [s_bank]. exact R5.
-    + intros d. eapply view_ok_ext; try apply R7; reflexivity.
+  - apply rel_intro; cbn [k_now k_params k_psnap k_ysnap k_native k_ubis]; try congruence; try assumption.
+    intros d. eapply view_ok_ext; try apply R7; reflexivity.
 Qed.
 
 (* ---------------------------------------------------------------- every operation, then histories *)
